@@ -701,6 +701,19 @@ def k_c12(ctx):
             if rng.random() < 0.5: cont.append(Line(d0 + datetime.timedelta(days=rng.choice([1, 40])), t, "BUY", "5", rng.choice(gen.PRICE), "GBP", None))
             vs["anchor%02d%02d" % (mm, dd)] = p + cont
         groups["g%d" % i] = {"base": p, "vars": vs, "last": last}
+    # the first line the property allows in a continuation: a purchase exactly 31 days after a final sale, with the sale placed
+    # where day counting is delicate (December of leap and ordinary years, around 29 February, year ends)
+    for i in range(ctx.n(300, 4000)):
+        y = rng.choice([2016, 2020, 2024, 2019, 2023, 2017]); t = rng.choice(gen.TICKS)
+        D = rng.choice([datetime.date(y, 12, rng.randint(1, 31)), datetime.date(y, 12, rng.randint(1, 31)), datetime.date(y, 1, rng.randint(28, 31)), datetime.date(y, 2, rng.randint(1, 28)), datetime.date(y, rng.randint(3, 11), rng.randint(1, 28))])
+        q = rng.choice([100, 40, 250]); sq = rng.choice([q, q // 2, 10])
+        p = [Line(D - datetime.timedelta(days=rng.choice([40, 100, 400])), t, "BUY", str(q), rng.choice(gen.PRICE), "GBP", rng.choice(gen.FEES)),
+             Line(D, t, "SELL", str(sq), rng.choice(gen.PRICE), "GBP", rng.choice(gen.FEES))]
+        if rng.random() < 0.3: p.insert(1, Line(D - datetime.timedelta(days=rng.choice([1, 10, 29])), t, "SELL", "5", rng.choice(gen.PRICE), "GBP", None))
+        vs = {}
+        for gap in (31, 32):
+            vs["buy+%d" % gap] = p + [Line(D + datetime.timedelta(days=gap), t, "BUY", str(rng.choice([sq, 2 * sq, 5])), rng.choice(gen.PRICE), "GBP", None)]
+        groups["w%d" % i] = {"base": p, "vars": vs, "last": D}
     def judge(gid, base, vs, g):
         fails = []
         ob = outcome(base); last = g["last"].toordinal()
